@@ -142,6 +142,8 @@ func (g *Message) Parse(bt []byte) error {
 	switch bt[3] {
 	case 0x06:
 		g.IsResponse = false
+		// a command without parameters carries no data: don't keep the data of a message parsed before
+		g.Data = nil
 		if len(bt) < 6 {
 			return fmt.Errorf("wrong length for command: %v (must be >= 6)", len(bt))
 		}
